@@ -2,6 +2,8 @@
 from .. import matrix, gen, witness
 from ..rules import encoding, lifetime, shape2, callgraph, retpos
 
+from ..rules import round5
+
 
 def sig_witnesses():
     """Result types of every operation named in C01 equal std::vector's, modulo the iterator / size types."""
@@ -104,9 +106,11 @@ def run(tier, runner):
     r_ov.require(4, 'in-place range moves')
     r_cd.require(15, 'constructs into container storage')
     r_tail.require(12, 'size commits')
+    r_sd = round5.sign_diff(progs + real)
+    r_sd.require(2, 'ordering members of the vectors')
     return {
-        'results': [r_w, r_r, r_es, r_span, r_it, r_ov, r_cd, r_tail, r_alias, r_bc, r_rp, r_vi] + r_sig,
-        'explanation': 'C01 as stated (equality of sequences with std::vector over histories) is a statement about run-time values and is not decided.  '
+        'results': [r_w, r_r, r_es, r_span, r_it, r_ov, r_cd, r_tail, r_alias, r_bc, r_rp, r_vi, r_sd] + r_sig,
+        'explanation': 'SIGN-DIFF: no unsigned size difference is widened to a signed type after wrapping (orderings derived from sizes keep their sign).  C01 as stated (equality of sequences with std::vector over histories) is a statement about run-time values and is not decided.  '
                        'Decided: structural clauses, each necessary for it.  ENC-W / ENC-R: the inline size/capacity words of SmallVector are written only '
                        'by the encoders, jointly, or on an object known to be large, and every value read of `_size` honours the full marker; ENC-SIB: the three encoders themselves agree on the discipline (count in `_capa`, marker set when the count reaches N, N restored under the marker before `_capa` changes, large branch writes only `_size`).  '
                        'INLINE-SPAN: the N inline slots lie inside the object and nothing else lives there (record layout of every inline instantiation).  '
